@@ -97,11 +97,22 @@ impl Reporter {
     pub fn report(&self, v: &Violation, replay: impl FnOnce() -> Value) -> bool {
         if let Some(f) = self.known_id(v) {
             let mut g = self.inner.lock().unwrap();
+            let first = !g.known_hits.contains_key(&f.id);
             let e = g
                 .known_hits
                 .entry(f.id.clone())
                 .or_insert((0, f.summary.clone()));
             e.0 += 1;
+            // maintenance aid: VERIF_DUMP_KNOWN=1 writes one replay per known finding
+            if first && std::env::var("VERIF_DUMP_KNOWN").is_ok() {
+                let dir = verif_root().join("replays").join("known");
+                let _ = std::fs::create_dir_all(&dir);
+                let doc = json!({"property": v.property, "code": v.code, "detail": v.detail, "replay": replay()});
+                let _ = std::fs::write(
+                    dir.join(format!("{}-{}.json", v.property, f.id)),
+                    serde_json::to_string_pretty(&doc).unwrap(),
+                );
+            }
             return true;
         }
         let mut g = self.inner.lock().unwrap();
